@@ -90,6 +90,25 @@ Proof.
   exists m, a1, a2. tauto.
 Qed.
 
+(* ... and decidable: [sideb] computes it (the tie compares the harness's classification of
+   every constant-duration configuration with this function) *)
+Lemma side_decidable : forall c T, c19_ranges c T ->
+  (sideb (adjOf c T) T (clockRate c) = true <-> c19_side c T).
+Proof.
+  intros c T Hr. destruct (ranges_facts c T Hr) as [HR [HT Hsd]].
+  destruct Hr as [_ [_ [H3 H4]]].
+  destruct (adjusted_exists _ _ H4 H3) as [adj [Hadj [A1 _]]].
+  rewrite (adjOf_eq c T adj Hadj).
+  assert (Hadj1 : 1 <= adj) by (unfold millisecond in H4; lia).
+  assert (HRT : clockRate c <= T * second).
+  { unfold tsd in Hsd. assert (1 <= T * second / clockRate c) by lia.
+    apply (div_le_iff (T * second) (clockRate c) 1 HR) in H. lia. }
+  rewrite (sideb_spec adj T (clockRate c) HR HT HRT Hadj1).
+  split.
+  - intros NS. exists adj. split; assumption.
+  - intros [adj' [Hadj' NS]]. assert (adj' = adj) by congruence. subst adj'. exact NS.
+Qed.
+
 (* ----- bounds (no side condition) ----- *)
 Lemma bounds : forall c T flags d0 s p, c19_ranges c T ->
   run c init_state (constWrites d0 T flags) = POk s -> In p (nonFinalListed s) ->
